@@ -271,6 +271,9 @@ impl Ctx {
             s.push(v);
         }
     }
+    pub fn append_rule(&self, r: &str) {
+        self.rule.lock().unwrap().push_str(r);
+    }
     pub fn set_rule(&self, r: &str) {
         *self.rule.lock().unwrap() = r.to_string();
     }
@@ -323,6 +326,44 @@ impl Ctx {
             let mut h = self.known_hits.lock().unwrap();
             let e = h.entry(k.signature.clone()).or_insert((0, k.what.clone()));
             e.0 += 1;
+        }
+    }
+
+    /// What a child process found, for the parent check to absorb (see `import`).
+    pub fn export(&self) -> Value {
+        let viol = self.violations.lock().unwrap();
+        json!({
+            "evaluations": self.evals(),
+            "distinct_nontrivial": self.nontrivial_count(),
+            "labels": *self.labels.lock().unwrap(),
+            "samples": *self.samples.lock().unwrap(),
+            "inconclusive": *self.inconclusive.lock().unwrap(),
+            "violations": viol.iter().map(|v| json!({"sub": v.sub, "sig": v.sig, "msg": v.msg, "replay": v.replay.display().to_string()})).collect::<Vec<_>>(),
+        })
+    }
+
+    /// Absorb the export of a child process that explored part of this check (its replay files are
+    /// already written).
+    pub fn import(&self, x: &Value) {
+        self.evals_add(x.get("evaluations").and_then(|v| v.as_u64()).unwrap_or(0));
+        self.nontrivial_enumerated(x.get("distinct_nontrivial").and_then(|v| v.as_u64()).unwrap_or(0));
+        if let Some(l) = x.get("labels").and_then(|v| v.as_object()) {
+            for (k, n) in l {
+                self.label_n(k, n.as_u64().unwrap_or(0));
+            }
+        }
+        for s in x.get("samples").and_then(|v| v.as_array()).cloned().unwrap_or_default().into_iter().take(3) {
+            self.samples.lock().unwrap().push(s);
+        }
+        for w in x.get("inconclusive").and_then(|v| v.as_array()).cloned().unwrap_or_default() {
+            self.inconclusive(w.as_str().unwrap_or("child inconclusive"));
+        }
+        let mut viol = self.violations.lock().unwrap();
+        for v in x.get("violations").and_then(|v| v.as_array()).cloned().unwrap_or_default() {
+            let g = |k: &str| v.get(k).and_then(|s| s.as_str()).unwrap_or("").to_string();
+            if !viol.iter().any(|y| y.sig == g("sig")) {
+                viol.push(Violation { sub: g("sub"), sig: g("sig"), msg: g("msg"), replay: PathBuf::from(g("replay")) });
+            }
         }
     }
 
@@ -459,6 +500,10 @@ where
                 let strat = make();
                 let mut runner = new_runner(ctx.seed, sub, shard as u64, cases_per_shard);
                 let failed = AtomicBool::new(false);
+                // the first failure as it was observed (before shrinking): when the verdict depends on
+                // what the process did before (state surviving between uses), the shrunk case passes
+                // on its own and this is what gets reported
+                let first_failure: Mutex<Option<(Fail, Value)>> = Mutex::new(None);
                 let res = runner.run(&strat, |case| {
                     let counting = !failed.load(Ordering::Relaxed);
                     let probe = Probe { ctx, counting };
@@ -485,7 +530,9 @@ where
                                 }
                                 Ok(())
                             } else {
-                                failed.store(true, Ordering::Relaxed);
+                                if !failed.swap(true, Ordering::Relaxed) {
+                                    *first_failure.lock().unwrap() = Some((f.clone(), to_json(&case)));
+                                }
                                 Err(TestCaseError::fail(f.msg))
                             }
                         }
@@ -495,12 +542,18 @@ where
                     Ok(()) => {}
                     Err(TestError::Fail(_, minimal)) => {
                         let probe = Probe { ctx, counting: false };
-                        let f = match catch(|| judge(&minimal, &probe)) {
-                            Ok(Err(f)) => f,
-                            Ok(Ok(())) => Fail::new("flaky", "shrunk case passes when re-judged (flaky oracle?)"),
-                            Err(p) => Fail::new(format!("harness-or-library-{}", panic_sig(&p)), format!("uncaught panic while judging: {p}")),
+                        let (f, case) = match catch(|| judge(&minimal, &probe)) {
+                            Ok(Err(f)) => (f, to_json(&minimal)),
+                            Ok(Ok(())) => match first_failure.lock().unwrap().take() {
+                                // the judges are pure functions of the case and the library: a verdict that
+                                // changes when the same case is judged again means the library kept state
+                                // from earlier, independent uses
+                                Some((f, case)) => (Fail::new(format!("{}/only-after-earlier-uses", f.sig), format!("the case below failed when it was judged after earlier, independent cases on the same thread / in the same process, and its shrunk form passes when judged again: the outcome depends on state the library keeps between uses (a single-case replay may therefore pass). First failure: {}", f.msg)), case),
+                                None => (Fail::new("flaky", "shrunk case passes when re-judged"), to_json(&minimal)),
+                            },
+                            Err(p) => (Fail::new(format!("harness-or-library-{}", panic_sig(&p)), format!("uncaught panic while judging: {p}")), to_json(&minimal)),
                         };
-                        ctx.failure(sub, &f, to_json(&minimal));
+                        ctx.failure(sub, &f, case);
                     }
                     Err(TestError::Abort(why)) => {
                         ctx.inconclusive(&format!("{sub}: proptest aborted: {why}"));
@@ -566,4 +619,49 @@ pub fn hex_short(b: &[u8]) -> String {
     } else {
         format!("{}…({} bytes)…{}", hex(&b[..64]), b.len(), hex(&b[b.len() - 16..]))
     }
+}
+
+
+// --------------------------------------------------------------------------------------------
+// a `log` logger that renders every record (as env_logger with RUST_LOG=trace would), so that the
+// code inside the library's logging statements runs; the text goes to a per-thread counter
+// --------------------------------------------------------------------------------------------
+
+struct RenderingLogger;
+
+thread_local! {
+    static RENDERED: std::cell::Cell<u64> = const { std::cell::Cell::new(0) };
+}
+
+impl log::Log for RenderingLogger {
+    fn enabled(&self, _m: &log::Metadata) -> bool {
+        true
+    }
+    fn log(&self, record: &log::Record) {
+        use std::fmt::Write;
+        struct Count(u64);
+        impl Write for Count {
+            fn write_str(&mut self, s: &str) -> std::fmt::Result {
+                self.0 += s.len() as u64;
+                Ok(())
+            }
+        }
+        let mut c = Count(0);
+        let _ = write!(c, "{} {}", record.target(), record.args());
+        RENDERED.with(|r| r.set(r.get() + c.0));
+    }
+    fn flush(&self) {}
+}
+
+static LOGGER: RenderingLogger = RenderingLogger;
+
+/// Install the rendering logger (idempotent) and switch trace-level logging on or off for the process.
+pub fn set_trace_logging(on: bool) {
+    let _ = log::set_logger(&LOGGER);
+    log::set_max_level(if on { log::LevelFilter::Trace } else { log::LevelFilter::Off });
+}
+
+/// Octets of log text rendered on this thread so far.
+pub fn rendered_log_octets() -> u64 {
+    RENDERED.with(|r| r.get())
 }
